@@ -426,6 +426,10 @@ func ServiceHealthEventsFromChanges(tx ReadTxn, changes Changes) ([]stream.Event
 			if e, ok := isConnectProxyDestinationServiceChange(changes.Index, before, after); ok {
 				events = append(events, e)
 			}
+
+			if e, ok := isConnectNativeDisabledChange(changes.Index, before, after); ok {
+				events = append(events, e)
+			}
 		}
 
 		if _, ok := nodeChanges[tuple.nodeTuple()]; ok {
@@ -535,6 +539,22 @@ func isConnectProxyDestinationServiceChange(idx uint64, before, after *structs.S
 	payload := e.Payload.(EventPayloadCheckServiceNode)
 	payload.overrideKey = payload.Value.Service.Proxy.DestinationServiceName
 	e.Payload = payload
+	return e, true
+}
+
+// isConnectNativeDisabledChange handles the case where a Connect-native instance
+// is re-registered without Connect.Native. The update is only relevant to the
+// ServiceHealth topic from now on, so subscribers of the Connect topic need a
+// de-registration or they would keep the instance forever.
+func isConnectNativeDisabledChange(idx uint64, before, after *structs.ServiceNode) (stream.Event, bool) {
+	if !before.ServiceConnect.Native || after.ServiceConnect.Native ||
+		before.ServiceName != after.ServiceName {
+		// a rename already de-registers the old name on both topics
+		return stream.Event{}, false
+	}
+
+	e := newServiceHealthEventDeregister(idx, before)
+	e.Topic = EventTopicServiceHealthConnect
 	return e, true
 }
 
